@@ -47,7 +47,26 @@ Ltac tests :=
   | |- context [?a <=? ?b] => destruct (Nat.leb_spec a b)
   end; cbn [andb orb].
 
-Ltac ring_equiv := unf_prims; simp; repeat (split1; simp); close.
+(* harmless re-orderings: operands of `+` swapped, or an index written differently, under a function lia does
+   not look into ([mod], [nth_error], [set_nth]): bring the variants to one spelling before splitting *)
+Ltac norm_comm :=
+  repeat match goal with
+  | |- context [?a + ?b] =>
+      lazymatch a with b => fail | _ => idtac end;
+      match goal with |- context [b + a] => rewrite (Nat.add_comm b a) end
+  end.
+Ltac distinct x y :=
+  lazymatch x with context [y] => fail | _ => idtac end;
+  lazymatch y with context [x] => fail | _ => idtac end.
+Ltac norm_args :=
+  repeat match goal with
+  | |- context [?x mod ?n] =>
+      match goal with |- context [?y mod n] => distinct x y; replace y with x by lia end
+  | |- context [nth_error ?l ?x] =>
+      match goal with |- context [nth_error l ?y] => distinct x y; replace y with x by lia end
+  end.
+
+Ltac ring_equiv := unf_prims; simp; norm_comm; norm_args; repeat (split1; simp; norm_args); close.
 
 Section Equiv.
 Context {A : Type}.
